@@ -8,8 +8,8 @@ from vlib import common, pgen
 from vlib.common import ToolError
 
 
-def histories(num, depth, seed, name):
-    res = common.tlc('Population', cfg='Population_gen.cfg', workers=1, simulate='num=%d' % num, depth=depth, name=name, timeout=1800, seed_arg=seed, extra=['-aril', str(seed)])
+def histories(num, depth, seed, name, cfg='Population_gen.cfg'):
+    res = common.tlc('Population', cfg=cfg, workers=1, simulate='num=%d' % num, depth=depth, name=name, timeout=1800, seed_arg=seed, extra=['-aril', str(seed)])
     out, seen = [], set()
     for line in res.out.splitlines():
         if line.startswith('"HISTORY '):
@@ -58,6 +58,8 @@ def run(pid, tier):
     if dead:
         raise ToolError('Population model actions never taken: %s' % dead)
     hs = histories(400 if tier == 'quick' else 8000, 14, seed, pid + '-gen')
+    # rosomaxa histories that reach exploitation through exploration early and keep offering individuals afterwards
+    hs += histories(120 if tier == 'quick' else 2500, 14, seed + 1, pid + '-walk', cfg='Population_walk.cfg')
     by_kind = collections.Counter(h['cfg']['kind'] for h in hs)
     if len(hs) < 100 or len(by_kind) < 3:
         raise ToolError('histories generated: %s' % dict(by_kind))
